@@ -178,3 +178,109 @@ Example C14_example :
   exists r s v, sign 1 2 3 = Some (r, s, v) /\ 0 < r /\ 0 < s <= halfOrder /\ v < 4.
 Proof. exact example_sign. Qed.
 Print Assumptions C14_example.
+
+(* ---- the 10x26-bit limb arithmetic of the field IS arithmetic modulo p.
+   The optimised field code (src/cipher/secp256k1-go/secp256k1-go2/field.go) is
+   TRANSLATED on every run (Gen/FieldLimbs.v; translator/stage4.go: a Field is its
+   ten limbs, a modified pointer receiver is returned, `for c != 0` is a fuelled
+   loop) and proved against the vocabulary of Model/FieldSpec.v:
+     val f       = sum of n_i * 2^(26 i)
+     mag m f     : limb i <= m * (2^26 - 1), top limb <= m * (2^22 - 1)
+     canon f     : mag 1 f and val f < p              norm_post V l : canon l /\ val l = V mod p
+     norm_pre f  : n_0 < 2^32, n_i <= 2^32 - 64 (i >= 1) — no (c >> 26) + n[i] can wrap
+     returns Q r : r = Val a with Q a — in particular no Panic: the loop fuel sufficed.
+   Proofs: Proofs/FieldLimbs.v. Mul / Sqr / Inv / Sqrt are NOT covered here (they are
+   compared with the model by the run-time correspondence only). *)
+From Sky Require Import Base.Uint Model.FieldSpec Gen.FieldLimbs Proofs.FieldLimbs.
+
+(* Normalize: canonical result, same value modulo p, at most two folds *)
+Theorem C14_Normalize_correct : forall n0 n1 n2 n3 n4 n5 n6 n7 n8 n9,
+  norm_pre (n0, n1, n2, n3, n4, n5, n6, n7, n8, n9) ->
+  returns (norm_post (val (n0, n1, n2, n3, n4, n5, n6, n7, n8, n9)))
+    (Field_Normalize n0 n1 n2 n3 n4 n5 n6 n7 n8 n9).
+Proof. exact Normalize_correct. Qed.
+Print Assumptions C14_Normalize_correct.
+
+(* the library's bookkeeping: anything of magnitude <= 64 may be normalised *)
+Theorem C14_Normalize_magnitude : forall m n0 n1 n2 n3 n4 n5 n6 n7 n8 n9, 0 <= m <= 64 ->
+  mag m (n0, n1, n2, n3, n4, n5, n6, n7, n8, n9) ->
+  returns (norm_post (val (n0, n1, n2, n3, n4, n5, n6, n7, n8, n9)))
+    (Field_Normalize n0 n1 n2 n3 n4 n5 n6 n7 n8 n9).
+Proof. exact Normalize_mag. Qed.
+Print Assumptions C14_Normalize_magnitude.
+
+(* without the bound the function is wrong (a uint32 addition wraps) *)
+Theorem C14_Normalize_unbounded_refuted :
+  exists n0 n1, in_u 32 n0 /\ in_u 32 n1 /\
+    exists l, Field_Normalize n0 n1 0 0 0 0 0 0 0 0 = Val l /\
+              val l <> val (n0, n1, 0, 0, 0, 0, 0, 0, 0, 0) mod p.
+Proof. exact Normalize_unbounded_refuted. Qed.
+Print Assumptions C14_Normalize_unbounded_refuted.
+
+(* the code before the fix 234fc8ec9 (single fold) does NOT satisfy the statement:
+   magnitude-2 witness, on which the regenerated code is right *)
+Theorem C14_Normalize_single_fold_refuted :
+  exists f, mag 2 f /\
+    (let '(n0, n1, n2, n3, n4, n5, n6, n7, n8, n9) := f in
+     val (Normalize_single_fold n0 n1 n2 n3 n4 n5 n6 n7 n8 n9) <> val f mod p /\
+     exists l, Field_Normalize n0 n1 n2 n3 n4 n5 n6 n7 n8 n9 = Val l /\ val l = val f mod p).
+Proof. exact Normalize_single_fold_refuted. Qed.
+Print Assumptions C14_Normalize_single_fold_refuted.
+
+Theorem C14_SetAdd_correct : forall m1 m2 f0 f1 f2 f3 f4 f5 f6 f7 f8 f9 a0 a1 a2 a3 a4 a5 a6 a7 a8 a9,
+  mag m1 (f0, f1, f2, f3, f4, f5, f6, f7, f8, f9) -> mag m2 (a0, a1, a2, a3, a4, a5, a6, a7, a8, a9) ->
+  m1 + m2 <= 64 ->
+  returns (fun r => mag (m1 + m2) r /\
+                    val r = val (f0, f1, f2, f3, f4, f5, f6, f7, f8, f9) + val (a0, a1, a2, a3, a4, a5, a6, a7, a8, a9))
+    (Field_SetAdd f0 f1 f2 f3 f4 f5 f6 f7 f8 f9 a0 a1 a2 a3 a4 a5 a6 a7 a8 a9).
+Proof. exact SetAdd_correct. Qed.
+Print Assumptions C14_SetAdd_correct.
+
+Theorem C14_MulInt_correct : forall m a f0 f1 f2 f3 f4 f5 f6 f7 f8 f9,
+  mag m (f0, f1, f2, f3, f4, f5, f6, f7, f8, f9) -> 0 <= a -> m * a <= 64 ->
+  returns (fun r => mag (m * a) r /\ val r = a * val (f0, f1, f2, f3, f4, f5, f6, f7, f8, f9))
+    (Field_MulInt f0 f1 f2 f3 f4 f5 f6 f7 f8 f9 a).
+Proof. exact MulInt_correct. Qed.
+Print Assumptions C14_MulInt_correct.
+
+(* Negate(m): (m+1) p - a (the constants in the code are the limbs of p) *)
+Theorem C14_Negate_correct : forall m f0 f1 f2 f3 f4 f5 f6 f7 f8 f9,
+  mag m (f0, f1, f2, f3, f4, f5, f6, f7, f8, f9) -> 0 <= m <= 63 ->
+  returns (fun r => mag (m + 1) r /\ val r = (m + 1) * p - val (f0, f1, f2, f3, f4, f5, f6, f7, f8, f9))
+    (Field_Negate f0 f1 f2 f3 f4 f5 f6 f7 f8 f9 m).
+Proof. exact Negate_correct. Qed.
+Print Assumptions C14_Negate_correct.
+
+(* the group code's pattern a.Negate(&t,1); t.SetAdd(b); t.Normalize() stays inside the
+   premises and computes (b - a) mod p *)
+Theorem C14_Negate_SetAdd_Normalize : forall a0 a1 a2 a3 a4 a5 a6 a7 a8 a9 b0 b1 b2 b3 b4 b5 b6 b7 b8 b9,
+  mag 1 (a0, a1, a2, a3, a4, a5, a6, a7, a8, a9) -> mag 1 (b0, b1, b2, b3, b4, b5, b6, b7, b8, b9) ->
+  exists t s r,
+    Field_Negate a0 a1 a2 a3 a4 a5 a6 a7 a8 a9 1 = Val t /\
+    (let '(t0, t1, t2, t3, t4, t5, t6, t7, t8, t9) := t in
+     Field_SetAdd t0 t1 t2 t3 t4 t5 t6 t7 t8 t9 b0 b1 b2 b3 b4 b5 b6 b7 b8 b9 = Val s) /\
+    (let '(s0, s1, s2, s3, s4, s5, s6, s7, s8, s9) := s in
+     Field_Normalize s0 s1 s2 s3 s4 s5 s6 s7 s8 s9 = Val r) /\
+    canon r /\
+    val r = (val (b0, b1, b2, b3, b4, b5, b6, b7, b8, b9) - val (a0, a1, a2, a3, a4, a5, a6, a7, a8, a9)) mod p.
+Proof. exact Negate_SetAdd_Normalize. Qed.
+Print Assumptions C14_Negate_SetAdd_Normalize.
+
+Theorem C14_IsOdd_correct : forall n0 n1 n2 n3 n4 n5 n6 n7 n8 n9,
+  Field_IsOdd n0 n1 n2 n3 n4 n5 n6 n7 n8 n9 = Val (Z.odd (val (n0, n1, n2, n3, n4, n5, n6, n7, n8, n9))).
+Proof. exact IsOdd_correct. Qed.
+Print Assumptions C14_IsOdd_correct.
+
+Theorem C14_IsZero_correct : forall n0 n1 n2 n3 n4 n5 n6 n7 n8 n9,
+  reduced (n0, n1, n2, n3, n4, n5, n6, n7, n8, n9) ->
+  Field_IsZero n0 n1 n2 n3 n4 n5 n6 n7 n8 n9 = Val (val (n0, n1, n2, n3, n4, n5, n6, n7, n8, n9) =? 0).
+Proof. exact IsZero_correct. Qed.
+Print Assumptions C14_IsZero_correct.
+
+(* reduced representations are unique, so Equals decides equality of the values *)
+Theorem C14_Equals_correct : forall n0 n1 n2 n3 n4 n5 n6 n7 n8 n9 m0 m1 m2 m3 m4 m5 m6 m7 m8 m9,
+  reduced (n0, n1, n2, n3, n4, n5, n6, n7, n8, n9) -> reduced (m0, m1, m2, m3, m4, m5, m6, m7, m8, m9) ->
+  Field_Equals n0 n1 n2 n3 n4 n5 n6 n7 n8 n9 m0 m1 m2 m3 m4 m5 m6 m7 m8 m9
+  = Val (val (n0, n1, n2, n3, n4, n5, n6, n7, n8, n9) =? val (m0, m1, m2, m3, m4, m5, m6, m7, m8, m9)).
+Proof. exact Equals_correct. Qed.
+Print Assumptions C14_Equals_correct.
